@@ -282,6 +282,39 @@ fn main() {
         }
         run.merge(t);
     }
+    // range grid: every one- and two-bound pattern over a wider grid of bound shapes (equal values
+    // in different spellings, modifiers, revisions, long and padded numbers) x every version of
+    // the same grid as the candidate, same base and a near-miss base
+    {
+        const GRID: [&str; 24] = [
+            "0", "1", "1.0", "1_0", "1.00", "01", "1nb1", "1.0nb1", "1nb2", "1.1", "1.9", "1.10", "2", "2rc1", "2beta3", "2alpha", "2pre2", "2pl1", "2.0.0.0.1", "10",
+            "9.99", "20240102", "1.0.0", "2nb0",
+        ];
+        let mut pats: Vec<String> = vec![];
+        for (oi, o1) in OPS.iter().enumerate() {
+            for b1 in GRID {
+                pats.push(format!("p{}{}", o1.text(), b1));
+                for o2 in OPS.iter() {
+                    for (bi, b2) in GRID.iter().enumerate() {
+                        // quick tier: every second (operator, bound) combination for the second bound
+                        if !run.thorough() && (oi + bi) % 2 == 1 {
+                            continue;
+                        }
+                        pats.push(format!("p{}{}{}{}", o1.text(), b1, o2.text(), b2));
+                    }
+                }
+            }
+        }
+        let mut names: Vec<String> = GRID.iter().map(|v| format!("p-{}", v)).collect();
+        names.extend(GRID.iter().take(8).map(|v| format!("pp-{}", v)));
+        names.extend(GRID.iter().take(8).map(|v| format!("p-q-{}", v)));
+        run.bound(format!("range grid: {} one- and two-bound patterns over {} bound shapes x {} names", pats.len(), GRID.len(), names.len()));
+        par_items(&run, "C02 range grid", &pats, |_, p, t| {
+            t.states += 1;
+            t.transitions += names.len() as u64;
+            check_pattern(t, p, &names);
+        });
+    }
     // character sweep: every ASCII and 64 special non-ASCII characters inside the base
     {
         let chars: Vec<char> = mc_core::chars::all().into_iter().filter(|c| !"<>{}".contains(*c)).collect();
